@@ -355,6 +355,20 @@ class Canon:
         for f in self.p.all_functions():
             if f.cls is not None and f.name.startswith("_") and len(defs.get(f.name, [])) == 1 and bare.get(f.name):
                 refs[f.name] = refs.get(f.name, 0) - bare[f.name]
+        # `self.<name>` inside a class that is not related to the class of the method names something else (a field of that class)
+        by_cls = {}
+        for g in self.p.all_functions():
+            if g.cls is None:
+                continue
+            for x in ast.walk(g.node):
+                if isinstance(x, ast.Attribute) and isinstance(x.value, ast.Name) and x.value.id in ("self", "cls") and x.attr.startswith("_"):
+                    by_cls.setdefault(x.attr, {})
+                    by_cls[x.attr][g.cls] = by_cls[x.attr].get(g.cls, 0) + 1
+        for f in self.p.all_functions():
+            if f.cls is not None and f.name in by_cls and len(defs.get(f.name, [])) == 1 and f.kind in ("method", "static"):
+                for c_, k_ in by_cls[f.name].items():
+                    if not (c_ is f.cls or c_.is_subclass_of(f.cls) or f.cls.is_subclass_of(c_)):
+                        refs[f.name] = refs.get(f.name, 0) - k_
         self._refs, self._defs = refs, defs
         EFFECT_ATTRS.clear()
         for f in self.p.all_functions():
